@@ -40,6 +40,7 @@ pub fn plan() -> Plan {
         directed: vec![],
         quick_histories: 1500,
         thorough_histories: 400000,
+        s5: None,
     }
 }
 
